@@ -330,7 +330,7 @@ def _ledger_task(task):
         ent = inst.entropy(x, extra=3)
         s = inst.new(side, b"pw", C.ids_for(side, 1), entropy=ent)
         ledger = [("construct", list(ent.calls))]
-        m = T.observe(s.start)
+        m = T.observe(T.do_start, s)
         n_start = len(ent.calls)
         ledger.append(("start", list(ent.calls)))
         blob = T.observe(s.serialize)
@@ -354,6 +354,89 @@ def _ledger_task(task):
                           "replay": {"fn": "ledger", "inst": inst.desc, "side": side, "x": x}, "expected": [["construct", []], ["start", want_sizes], ["rest", want_sizes]],
                           "observed": ledger})
         acc.seen((F, side, tuple(ent.calls)))
+    return acc
+
+
+class Failing:
+    """entropy function that delivers its scripted answers up to call `fail_at`, raises there (a source that becomes unavailable),
+    and works again afterwards"""
+
+    def __init__(self, answers, fail_at):
+        self.answers, self.fail_at, self.calls, self.delivered = list(answers), fail_at, [], []
+
+    def __call__(self, n):
+        i = len(self.calls)
+        self.calls.append(n)
+        if i == self.fail_at:
+            raise OSError("entropy source unavailable")
+        j = i if i < self.fail_at else i - 1
+        if j >= len(self.answers):
+            raise T.EntropyExhausted("beyond the script")
+        a = self.answers[j]
+        a = (int.from_bytes(a, "big") % (1 << 8 * n)).to_bytes(n, "big") if len(a) != n else a
+        self.delivered.append(a)
+        return a
+
+
+def failing_run(inst, side, x, fail_at):
+    """(outcomes) of: start() while the entropy function raises at its call number fail_at; serialize(); restore + finish; start() again"""
+    R = inst.ref
+    if fail_at == 0:
+        answers = R.entropy_for_scalar(x)
+    else:
+        k = R.ssize
+        top = (1 << (inst.q.bit_length())) - 1
+        if top < inst.q:
+            return None
+        answers = [(top % (1 << 8 * k)).to_bytes(k, "big")] + list(R.entropy_for_scalar(x))       # first answer is rejected, the re-draw fails
+    ent = Failing(answers, fail_at)
+    s = inst.new(side, b"pw", C.ids_for(side, 1), entropy=ent)
+    m1 = T.observe(s.start)
+    blob = T.observe(s.serialize)
+    sc = None
+    fin = None
+    if blob[0] == "ok":
+        sc = T.read_scalar(inst, s)
+        r = T.observe(inst.restore, side, blob[1])
+        if r[0] == "ok":
+            d = RS.message(inst.rp, C.PEER[side], R.pw_scalar(b"pw"), 3 % inst.q)
+            fin = T.observe(r[1].finish, d)
+    m2 = T.observe(s.start)
+    sc2 = T.read_scalar(inst, s) if m2[0] == "ok" else None
+    return {"first_start": m1[0] if m1[0] == "ok" else m1, "serialize_after_failed_start": blob[0] if blob[0] == "ok" else blob, "scalar_in_that_state": sc,
+            "restored_finish": None if fin is None else (fin[0] if fin[0] == "ok" else fin), "second_start": m2[0] if m2[0] == "ok" else m2,
+            "second_scalar": sc2, "entropy_calls": len(ent.calls)}
+
+
+def _failing_task(task):
+    """the entropy function raises inside start() (on the first draw; on the re-draw after a rejected answer): whatever the instance
+    reports afterwards, a secret scalar that no delivered entropy bytes define must never appear in serialize() - it could be
+    restored and finished into a key"""
+    name, side = task
+    acc = Acc()
+    inst, why = T.try_get(name)
+    if inst is None:
+        return acc
+    F = inst.kind if inst.small else inst.name
+    for x in ((2 % inst.q, 0) if inst.small else (5,)):
+        for fail_at in (0, 1):
+            if fail_at == 1 and inst.ref.kind != "int":
+                continue
+            o = failing_run(inst, side, x, fail_at)
+            if o is None:
+                continue
+            acc.n(states=1, transitions=5, traces=1)
+            acc.seen((F, side, fail_at, str(o["serialize_after_failed_start"])[:40], str(o["second_start"])[:30]))
+            if o["first_start"] == "ok":
+                acc.violation("C11/%s/start-succeeds-without-entropy" % F, {"what": "start() returns a message although the supplied entropy function raised during the draw",
+                              "replay": {"fn": "failing", "inst": inst.desc, "side": side, "x": x, "fail_at": fail_at}, "expected": "exception", "observed": o})
+            elif o["serialize_after_failed_start"] == "ok":
+                acc.violation("C11/%s/scalar-without-entropy" % F, {"what": "after a start() in which the entropy function raised (call #%d), serialize() reports a secret scalar "
+                              "that no delivered entropy bytes define" % fail_at,
+                              "replay": {"fn": "failing", "inst": inst.desc, "side": side, "x": x, "fail_at": fail_at}, "expected": "serialize() raises", "observed": o})
+            if o["second_start"] == "ok" and o["second_scalar"] != x:
+                acc.violation("C11/%s/retry-scalar" % F, {"what": "a start() that succeeds after a failed one does not take its scalar from the entropy bytes then delivered",
+                              "replay": {"fn": "failing", "inst": inst.desc, "side": side, "x": x, "fail_at": fail_at}, "expected": x, "observed": o})
     return acc
 
 
@@ -461,7 +544,15 @@ def run(tier, seed):
     for name in ["T23", "ParamsEd25519", "Params1024"]:
         for side in "ABS":
             tasks.append(("falsy", (name, side)))
-    w = {"width": 1, "shipped": 3000, "toy": 1500, "ledger": 2000, "nb": 2500, "falsy": 500, "prefork": 400, "copied": 400}
+    for name in ["T23", "T263", "E37", "ParamsEd25519", "Params1024"] + ([] if quick else ["Params2048", "Params3072", "T1543"]):
+        for side in "ABS":
+            tasks.append(("failing", (name, side)))
+    # the entropy ledger with the application calling the library in other ways (all-positional arguments, subclasses, ...)
+    for st in ("positional", "password-keyword", "subclass", "subclass-init", "unbound-calls"):
+        for name in ["T23", "ParamsEd25519", "Params1024"]:
+            for side in "ABS":
+                tasks.append(("style", st, ("ledger", (name, side))))
+    w = {"width": 1, "shipped": 3000, "toy": 1500, "ledger": 2000, "nb": 2500, "falsy": 500, "prefork": 400, "copied": 400, "failing": 600, "style": 1200}
     def cost(t):
         if t[0] != "width":
             return w[t[0]]
@@ -475,8 +566,12 @@ def run(tier, seed):
 
 
 def _dispatch(t):
+    if t[0] == "style":
+        with T.call_style(t[1]):
+            a = _dispatch(t[2])
+        return a.tag_env("style:" + t[1])
     return {"width": _width_task, "shipped": _shipped_task, "toy": _toy_scalar_task, "ledger": _ledger_task, "nb": _neighbours_task,
-            "falsy": _falsy_task, "prefork": _prefork_task, "copied": _copied_task}[t[0]](t[1])
+            "falsy": _falsy_task, "prefork": _prefork_task, "copied": _copied_task, "failing": _failing_task}[t[0]](t[1])
 
 
 def replay(rec):
@@ -491,6 +586,10 @@ def replay(rec):
         return got[1] if got[0] == "ok" else ("another draw" if got[1] == "EntropyExhausted" else got)
     if fn == "randrange-count":
         return "re-run the check: counting oracle over the complete first draw"
+    if fn == "failing":
+        return failing_run(T.build_inst(r["inst"]), r["side"], r["x"], r["fail_at"])
+    if fn == "ledger":
+        return "re-run the check: ledger of entropy requests per call"
     if fn == "falsy":
         inst = T.build_inst(r["inst"])
         ent = FalsyScript(inst.ref.entropy_for_scalar(r["x"]))
